@@ -38,6 +38,13 @@ CLAIMED = {
         "DESIGN.md section 8, C14",
         "seeded search over bootstrap graphs x NAT kinds x hair-pin source addresses; bounded liveness + invariant",
     ),
+    "C09": (
+        "fault_enumeration",
+        "Node level: 2-3 real nodes on a clean network; establishment plus 3-10 s of operation are recorded; run i takes cell i mod 72 of the grid replay offset {0,1,2,5,30,59,61,90,119,121,300,600} s x source address {original, another peer, unknown} x {verbatim, one field edited (stage, node-id hash, ECDH key, cipher list, payload, part length, signature length/bytes; key id, counter, ciphertext/tag)}: every recorded datagram is re-injected at its original destination at (first transmission + offset). One marked probe frame per second in both directions on every connection until 400 s after the last re-injection. Oracle: at every tick every pair still connected and holding the other's claims; every probe delivered byte-identical exactly once (a second copy only for verbatim replays from the original source at offsets <= 5 s, the C03 window); no unwind.",
+        "Trusted: simulator seams. No network fault other than the adversary is enabled, so every loss is attributable. The recorded set is establishment + the first seconds of operation (handshake, node info, data, first rotation message), not hours of traffic.",
+        "DESIGN.md section 8, C09",
+        "fault enumeration over (offset x source x edit) with seeded meshes; per-second probe delivery oracle",
+    ),
     "C10": (
         "exploration",
         "Forwarding family scenario (sim/src/fwd.rs): 2-5 real nodes, modes normal/router/switch/hub on tun and tap, 20-120 operations per run (thorough: up to 300): marked frames and packets (24..9000 bytes; destinations claimed / learned / unknown / broadcast / own; truncated frames), time steps of 0/1/switch timeout -1,+0,+1 (switch timeout 2..300 s), restarts on the same address with another claim set, graceful stops, crashes, one-way partitions, optional loss. C10 oracle (conservation per step): handling one interface read emits exactly one datagram per peer selected by the node's own lookup (probe) and nothing else; handling a received payload emits no datagram; every interface write is byte-identical to a frame read at a peer, comes from a current peer and is caused by exactly one datagram; at the end every marked frame was written at most once per node, never at its origin, only at selected peers, and at every selected peer when membership was stable and the network loss-free.",
